@@ -90,6 +90,11 @@ def _q(s, rnd, allow_bare=False):
     return ("'%s'" % s) if r < 0.67 else ('"%s"' % s)
 
 
+def real_str(s):
+    """`|` in a string of the spec stands for a line break."""
+    return s.replace("|", "\n")
+
+
 def value_text(p, l, rnd, salt=0):
     """Text of `value [unit]` for a definition / modification / bystander literal."""
     t = l["t"]
@@ -100,6 +105,8 @@ def value_text(p, l, rnd, salt=0):
         s = num_text(l, style)
         return s + (" " + l["u"] if l["u"] else "")
     if t == "str":
+        if "|" in l["s"]:                       # several lines: a block value
+            return '"""\n' + real_str(l["s"]) + '\n"""'
         return _q(l["s"], rnd, allow_bare=True)
     if t == "bool":
         return "true" if l["b"] else "false"
@@ -109,6 +116,13 @@ def value_text(p, l, rnd, salt=0):
             s += " " + p["nu"]
         return s
     raise ValueError(t)
+
+
+def typed_part(p, m, rnd):
+    """` <type>[dims]` of a modification written as a typed redefinition ('' for a plain `name = value`)."""
+    if p["dims"]:
+        return " " + p["ty"] + dims_text(m["dm"]) if m.get("dm") else ""
+    return " " + p["ty"] if rnd.random() < 0.25 else ""
 
 
 def atom_text(p, a, outer_quote, rnd):
@@ -222,8 +236,7 @@ def render_import(p, rnd):
         lines.append("{" + ref + name + "}")
         path = name
     for j, m in enumerate(p["mods"]):
-        typed = rnd.random() < 0.25 and not p["dims"]
-        lines.append(path + (" " + p["ty"] if typed else "") + " = " + value_text(p, m, rnd, salt + j + 1) + cm())
+        lines.append(path + typed_part(p, m, rnd) + " = " + value_text(p, m, rnd, salt + j + 1) + cm())
     if rnd.random() < 0.3:
         lines.append("z_post int = 1")
     return {"text": "\n".join(lines) + "\n", "path": path, "bypath": None, "origpath": orig, "files": files}
@@ -280,8 +293,7 @@ def render(p, seed):
         lines.append("z_mid bool = true")        # a further node; constraint lines that follow a modification
                                                  # get no neighbour the abstract program does not know about
     for j, m in enumerate(p["mods"]):
-        typed = rnd.random() < 0.25 and not p["dims"]
-        lines.append(mind + mname + (" " + p["ty"] if typed else "") + " = " + value_text(p, m, rnd, salt + j + 1) + cm())
+        lines.append(mind + mname + typed_part(p, m, rnd) + " = " + value_text(p, m, rnd, salt + j + 1) + cm())
     if p["place"] == "mod":
         lines += [mind + step + c for c in clines]
     if rnd.random() < 0.3:
@@ -421,7 +433,7 @@ def failing(obls, data, path):
                         out.append("unit %r != %r" % (unit, o["unit"]))
                 else:
                     lit = o["lit"]
-                    ref = lit["s"] if lit["t"] == "str" else lit["b"]
+                    ref = real_str(lit["s"]) if lit["t"] == "str" else lit["b"]
                     if isinstance(ref, bool):
                         if not isinstance(val, bool) or val != ref:
                             out.append("value %r != %r" % (val, ref))
@@ -462,12 +474,14 @@ def failing(obls, data, path):
 
 # ----------------------------------------------------------------------------- format table (constants of the spec)
 
-FMT_PATTERNS = ["[a-z]+$", "^[a-z]+$", "[a-z]+", "[a-z]{2}[0-9]$", "[a-z]+[0-9]", "^[a-z][a-z0-9]*$"]
-FMT_STRINGS = ["abc", "ab1", "1ab", "ab12", "Abc"]
+FMT_PATTERNS = ["[a-z]+$", "^[a-z]+$", "[a-z]+", "[a-z]{2}[0-9]$", "[a-z]+[0-9]", "^[a-z][a-z0-9]*$",
+                "^[a-z]+([^a-zA-Z0-9][a-z]+)*$"]        # the last one admits several lines of letters
+FMT_STRINGS = ["abc", "ab1", "1ab", "ab12", "Abc", "abc|abd", "abc|ab1", "ab1|abc"]   # `|` = line break
 
 
 def fmt_class(pat, s):
     """How Python's re (the documented regex dialect) relates pattern and string."""
+    s = real_str(s)
     if re.fullmatch(pat, s):
         return "full"
     if re.match(pat, s):
